@@ -29,6 +29,8 @@ type mconn struct {
 	qos2in    map[uint16]*refcodec.Packet // QoS 2 publishes received, waiting for PUBREL
 	qos2order []uint16
 	sess      *msession
+	lastRecv  int64 // virtual time of the last bytes the client sent
+	dialed    int64
 }
 
 type mretained struct {
@@ -64,6 +66,8 @@ type Exp struct {
 	MustClose bool
 	// the connection must stay open
 	MustStayOpen bool
+	// MayCodes: a CONNACK with one of these return codes may precede the close
+	MayCodes map[byte]bool
 }
 
 // Delivery expectation of one application message to one receiver.
@@ -248,6 +252,11 @@ func Compare(name string, got []*refcodec.Packet, e *Exp) []Mismatch {
 			if p.Retain {
 				comp = "retained"
 			}
+		case refcodec.CONNACK:
+			if e.MayCodes[p.ReturnCode] && !p.SessionPresent {
+				continue
+			}
+			comp = "connect"
 		case refcodec.PUBREL:
 			// part of a QoS 2 delivery the client acknowledged with PUBREC
 			continue
